@@ -832,6 +832,43 @@ def run(scen, ctx):
         return run_instance_op(scen, ctx)
     if op in ('cmp', 'repr'):
         return run_cmp(scen, ctx)
+    if op == 'bcast':
+        # the stock conditions `shape(s)` / `broadcastable(s)` on objects with a `.shape`, `is_broadcastable` / `broadcast_shapes`
+        # with numpy and with numpy blocked (the pure-Python fallback), against numpy's own answer
+        import types as _types
+        from pane.util import broadcast_shapes, is_broadcastable
+        shapes = [tuple(x) for x in scen['shapes']]
+        def attempt(f):
+            try:
+                return list(f())
+            except ValueError:
+                return None
+        import numpy as _np
+        truth = attempt(lambda: _np.broadcast_shapes(*shapes))
+        with_np = attempt(lambda: broadcast_shapes(*shapes))
+        saved = sys.modules.get('numpy')
+        sys.modules['numpy'] = None
+        try:
+            fallback = attempt(lambda: broadcast_shapes(*shapes))
+            fb_ok = is_broadcastable(*shapes)
+        finally:
+            sys.modules['numpy'] = saved
+        out = {'broadcast': with_np, 'fallback': fallback, 'is': is_broadcastable(*shapes), 'fallback_is': fb_ok}
+        if len(shapes) == 2:
+            v = _types.SimpleNamespace(shape=shapes[0])
+            out['cond_broadcastable'] = bool(A.broadcastable(shapes[1]).f(v))
+            out['cond_shape'] = bool(A.shape(list(shapes[1])).f(v))
+        notes = []
+        if with_np != truth:
+            notes.append(f'broadcast_shapes{tuple(shapes)} = {with_np}, numpy says {truth}')
+        if fallback != truth:
+            notes.append(f'without numpy broadcast_shapes{tuple(shapes)} = {fallback}, numpy says {truth}')
+        if out['is'] != (truth is not None) or fb_ok != (truth is not None):
+            notes.append(f'is_broadcastable{tuple(shapes)} = {out["is"]} (without numpy {fb_ok}), numpy says {truth is not None}')
+        if len(shapes) == 2 and (out['cond_broadcastable'] != (truth is not None) or out['cond_shape'] != (shapes[0] == shapes[1])):
+            notes.append(f'conditions on a value of shape {shapes[0]} against {shapes[1]}: broadcastable {out["cond_broadcastable"]}, shape {out["cond_shape"]}')
+        scen['_oracle'] = {'c13b': notes[0] if notes else None}
+        return out
     if op == 'reach':
         # C18, "handlers passed to a call apply at every depth inside containers, in both directions": serialising a container
         # whose element types are not declared = serialising every element by its own type with the SAME handlers
